@@ -521,10 +521,28 @@ func TestVerifC10AcceptReject(t *testing.T) {
 		if !accepted && want != "accept" && only != "C10" {
 			// C18: no entity is listed twice in the command's error text
 			text := err.Error()
+			// within one entity block no diagnostic line may repeat
+			block := map[string]bool{}
+			for _, line := range strings.Split(text, "\n") {
+				line = strings.TrimSpace(line)
+				if strings.HasPrefix(line, "Receiver ") || strings.HasPrefix(line, "Controller ") {
+					block = map[string]bool{}
+					continue
+				}
+				if line == "" || !strings.Contains(line, " at ") || !strings.Contains(line, " - ") {
+					continue
+				}
+				if block[line] {
+					fmt.Printf("VERIF-FAIL: class=C18-diagnostic-reported-twice-%s the error text of cases/%s repeats the diagnostic %q inside one entity\n", name, name, line)
+					failed = true
+					break
+				}
+				block[line] = true
+			}
 			for _, line := range strings.Split(text, "\n") {
 				line = strings.TrimSpace(line)
 				if strings.HasPrefix(line, "Receiver ") && strings.Count(text, line) > 1 {
-					fmt.Printf("VERIF-FAIL: class=C18-entity-reported-twice-%s the error text of cases/%s lists %q %d times\n", name, name, line, strings.Count(text, line))
+					fmt.Printf("VERIF-FAIL: class=C18-entity-reported-twice the error text of cases/%s lists %q %d times\n", name, line, strings.Count(text, line))
 					failed = true
 					break
 				}
